@@ -1,1 +1,103 @@
-(* C08 — FifoMapCache under concurrency (placeholder while the harness is being built; theorems follow). *)
+(* C08 — FifoMapCache is safe under concurrent use.  PARTIAL: property theorems for every schedule of the
+   interleaving model Model/CacheConc.v, the full statement, and its two refutations (known findings K1, K3). *)
+From Coq Require Import List Arith Bool.
+From TC.Model Require Import CacheConc.
+From TC.Proofs Require Import CacheConcBase CacheConcSafe.
+Import ListNotations.
+
+Section C08.
+  Context {K V : Type}.
+  Variable keqb : K -> K -> bool.
+  Variable zero : V.
+  Hypothesis keqb_spec : forall a b, reflect (a = b) (keqb a b).     (* Go's == on keys is reflexive (no NaN) *)
+  Notation run := (@run K V keqb zero).
+
+  (* For EVERY configuration (with or without the fixes F15 / F1) and EVERY schedule — any number of goroutines
+     calling Set/Get/Contains/Delete/Sweep/Clear, the ticker, cancellation, in any interleaving of their atomic
+     sections — no step dereferences a reference that does not exist: the cache never panics. *)
+  Theorem C08_partial_no_panic (c : config) (ls : list label) s :
+    run c init ls = Some s -> panicked s = false.
+  Proof. intros H. apply (cache_no_panic keqb zero c ls s H). Qed.
+
+  (* For every schedule: every (k, v) in ANY partition object (live, evicted or cleared away) was the argument of
+     some Set k v of the schedule; hence every value a completed Get k returned is the zero value or was Set for k. *)
+  Theorem C08_partial_get_was_set (c : config) (ls : list label) s :
+    run c init ls = Some s ->
+    (forall m k v, In m (pmaps s) -> In (k, v) m -> In (LSpawn (OSet k v)) ls)
+    /\ (forall k v, In (OGet k, PDone (RVal v)) (threads s) -> v = zero \/ In (LSpawn (OSet k v)) ls).
+  Proof. exact (cache_get_was_set_sched keqb zero keqb_spec c ls s). Qed.
+End C08.
+
+(* ------------------------------------------------------------------------------------------------------------
+   The FULL statement of C08 on the model (after fix F15): for all schedules no panic, no data race, and once
+   all calls have returned the views are consistent (at least: Keys() has no duplicate).  It is FALSE for the
+   code as it is; the two theorems below it are the machine-checked counterexamples (known findings K3 and K1;
+   both need a re-design of the cache's locking and are therefore not fixed). *)
+Definition C08_full_statement : Prop :=
+  forall (c : config) (ls : list (@label nat nat)) s,
+    recheck c = true -> run Nat.eqb 0 c init ls = Some s ->
+    panicked s = false /\ ~ race Nat.eqb 0 c s /\ (quiescent s = true -> NoDup (keys_now s)).
+
+Definition fixed_cfg (P C : nat) : config := {| maxP := P; capC := C; recheck := true; delidx := true |}.
+
+(* K3: two goroutines Set the same new key 7.  Both miss the index; the first opens partition 1 (capacity 1) and
+   fills it, the second then opens partition 2: the key is in two partitions, Keys() = [7; 7].
+   threads: 0 ticker, 1 = Set 7 1, 2 = Set 7 2, 3 and 4 = spawned sweepers (2 partitions <= maxP: nothing to pop) *)
+Definition duplicate_key_witness : list (@label nat nat) :=
+  [LSpawn (OSet 7 1); LSpawn (OSet 7 2);
+   LStep 1; LStep 2;                      (* index lookups: key 7 is new for both *)
+   LStep 1; LStep 1; LStep 1;             (* goroutine 1: RLock section, Lock section (opens id 1), partition.Set *)
+   LStep 2; LStep 2; LStep 2;             (* goroutine 2: partition 1 is full: opens id 2, partition.Set *)
+   LStep 1; LStep 2;                      (* index.Set, twice *)
+   LStep 3; LStep 3; LStep 4; LStep 4].
+
+Theorem C08_duplicate_key_refuted :
+  exists ls s, run Nat.eqb 0 (fixed_cfg 2 1) init ls = Some s
+               /\ quiescent s = true /\ panicked s = false /\ keys_now s = [7; 7] /\ ~ NoDup (keys_now s).
+Proof.
+  exists duplicate_key_witness. eexists. split; [vm_compute; reflexivity|].
+  repeat split; try reflexivity. intros H. inversion H as [|x l Hn _]; subst. apply Hn. left; reflexivity.
+Qed.
+
+(* K1: a Get that is about to read the field f.partitions without any lock (thread 3) while Clear (thread 4) is
+   about to take the write lock and overwrite that field: both steps are enabled in the same state and no common
+   lock orders them.  After Clear's first step the same holds for f.valuePartitionIndex (written by Clear under the
+   lock, read by the index lookup of a new Get, thread 5, under none). *)
+Definition race_witness : list (@label nat nat) :=
+  [LSpawn (OSet 1 11); LStep 1; LStep 1; LStep 1; LStep 1; LStep 1;     (* Set 1 11 runs to completion *)
+   LSpawn (OGet 1); LStep 3;                                             (* Get 1: index lookup done *)
+   LSpawn OClear].
+
+Theorem C08_race_refuted :
+  exists ls s, run Nat.eqb 0 (fixed_cfg 2 1) init ls = Some s /\ race Nat.eqb 0 (fixed_cfg 2 1) s
+               /\ nth_error (threads s) 3 = Some (OGet 1, PRdParts 1) /\ nth_error (threads s) 4 = Some (OClear, PCl1).
+Proof.
+  exists race_witness. eexists. split; [vm_compute; reflexivity|]. split; [|split; reflexivity].
+  exists 3, 4. vm_compute. reflexivity.
+Qed.
+
+Example C08_race_on_index :
+  exists s, run Nat.eqb 0 (fixed_cfg 2 1) init (race_witness ++ [LStep 4; LSpawn (OGet 1)]) = Some s
+            /\ race_at Nat.eqb 0 (fixed_cfg 2 1) s 5 4 = true
+            /\ nth_error (threads s) 5 = Some (OGet 1, PIdx) /\ nth_error (threads s) 4 = Some (OClear, PCl2).
+Proof. eexists. split; [vm_compute; reflexivity|]. repeat split; vm_compute; reflexivity. Qed.
+
+Corollary C08_full_statement_refuted : ~ C08_full_statement.
+Proof.
+  intros H. destruct C08_duplicate_key_refuted as (ls & s & Hr & Hq & _ & _ & Hd).
+  destruct (H (fixed_cfg 2 1) ls s eq_refl Hr) as (_ & _ & Hn). exact (Hd (Hn Hq)).
+Qed.
+
+(* non-vacuity: a schedule with every kind of operation *)
+Example C08_ex_run :
+  exists s, run Nat.eqb 0 (fixed_cfg 2 2) init
+              [LSpawn (OSet 1 11); LStep 1; LStep 1; LStep 1; LStep 1; LStep 1; LSpawn (OGet 1); LStep 3; LStep 3; LStep 3; LStep 3;
+               LTick; LStep 0; LStep 2; LStep 2; LStep 0; LStep 0; LCancel; LExit 0] = Some s
+            /\ nth_error (threads s) 3 = Some (OGet 1, PDone (RVal 11)) /\ nth_error (threads s) 0 = Some (OTicker, PDone RUnit).
+Proof. eexists. split; [vm_compute; reflexivity|]. split; reflexivity. Qed.
+
+Print Assumptions C08_partial_no_panic.
+Print Assumptions C08_partial_get_was_set.
+Print Assumptions C08_duplicate_key_refuted.
+Print Assumptions C08_race_refuted.
+Print Assumptions C08_full_statement_refuted.
